@@ -78,6 +78,9 @@ class Report:
         for o in new_viols:
             u = uniq.setdefault(o['key'], dict(o, instances=[]))
             u['instances'].append(o['instance'])
+        if uniq:
+            # a floor that is missed because a rule upstream already found a definite violation is not a broken analysis
+            self.broken = [(a, w) for a, w in self.broken if not a.startswith('floor:')]
         if self.broken or incs:
             exit_code = 2
         if uniq and not self.broken:
